@@ -299,6 +299,12 @@ def abstract_report(res, cli=False, world=None):
     else:
         crashed = res.get('crashed', '')
         failed = bool(res.get('failed'))
+    listing = []
+    list_unknown = 0
+    for lname, names in rep.get('listing', ()):
+        ids, _lay, oth = parse_listed(world, names)
+        listing.append([layer_abstract_name(lname), ids])
+        list_unknown += len(oth)
     fids, flay, foth = parse_listed(world, rep['failures'])
     eids, elay, eoth = parse_listed(world, rep['errors'])
     return {
@@ -316,4 +322,6 @@ def abstract_report(res, cli=False, world=None):
         'failOther': len(foth), 'errOther': len(eoth),
         'subprocErrs': len([x for x in eoth if x.startswith('subprocess')]),
         'peers': [],
+        'listing': listing, 'listUnknown': list_unknown,
+        'hasListing': bool(rep.get('listing')),
     }
